@@ -319,6 +319,7 @@ func Main() {
 	} else {
 		cases = part.gen(env)
 	}
+	var firstCase any
 	for i, c := range cases {
 		if i%env.NShards != env.Shard {
 			continue
@@ -328,6 +329,9 @@ func Main() {
 		}
 		var cv any
 		_ = json.Unmarshal(c, &cv)
+		if firstCase == nil {
+			firstCase = cv
+		}
 		// A case during which a time anomaly was flagged (virtual time moved where
 		// no wait was scripted) is re-executed; if it stays anomalous it is
 		// recorded as inconclusive and its observations are discarded.
@@ -353,6 +357,10 @@ func Main() {
 		}
 	}
 	out.curCase = nil
+	if len(out.Samples) == 0 && firstCase != nil {
+		// every shard contributes at least one written-out case
+		out.Samples = append(out.Samples, map[string]any{"part": part.Name, "case": firstCase})
+	}
 	if part.finish != nil {
 		part.finish(env, out)
 	}
@@ -459,3 +467,15 @@ func Since(t time.Time) time.Duration { return time.Since(t) }
 
 // J renders v as compact JSON for signatures and samples.
 func J(v any) string { b, _ := json.Marshal(v); return string(b) }
+
+// Settle waits until the system under test has finished the bookkeeping that
+// follows a response the client has already received (metrics, breaker and
+// health updates happen after the last byte is written). Under the virtual
+// clock a 1 ns sleep returns only when every other goroutine is blocked.
+func Settle() {
+	if IsSim {
+		time.Sleep(time.Nanosecond)
+		return
+	}
+	time.Sleep(3 * time.Millisecond)
+}
